@@ -1,8 +1,9 @@
 /-
 C18 — Connections spread over all resolved and mapped addresses.
 Property theorems about the model `Vegeta.Model.Dial` (helper lemmas are named `aux_*`).
-Race-freedom itself is not a theorem (the model has no memory accesses); the logical face of
-the races is (`rotation_lost_update_witness`).
+Race-freedom itself is not a theorem (the model has no memory accesses); its logical face is
+`connect_to_rotation_concurrent` / `connect_to_tickets_unique` (every interleaving of the atomic
+step) against `rotation_lost_update_old_witness` (the former non-atomic shape).
 -/
 import Vegeta.Model.Dial
 import Vegeta.Extracted.Facts
@@ -271,53 +272,62 @@ theorem shuffle_perm (js : List Nat) (l : List α) : (shuffle js l).Perm l := au
 
 /-! ### dialling through the DNS cache -/
 
+def fam4 (n : Nat) : Family := if n < 2 then .v4 else .v6
+
 theorem aux_dialStep (fam : α → Family) (js : List Nat) (cache : List α) :
-    (dialStep fam js cache).1 = pick fam (shuffle js cache) ∧
-    (dialStep fam js cache).2 = pick fam (shuffle js cache) ++ (shuffle js cache).drop (pick fam (shuffle js cache)).length := by
+    (dialStep fam js cache).1 = pick fam (shuffle js cache) ∧ (dialStep fam js cache).2 = cache := by
   unfold dialStep
   simp only [aux_firstOfEachInPlace]
   simp
 
-theorem aux_dialStep_subset (fam : α → Family) (js : List Nat) (cache : List α) :
-    (∀ x ∈ (dialStep fam js cache).1, x ∈ cache) ∧ (∀ x ∈ (dialStep fam js cache).2, x ∈ cache) := by
-  obtain ⟨h1, h2⟩ := aux_dialStep fam js cache
-  have hsub := (aux_pick_spec fam (shuffle js cache) false).2.1
-  have hp := shuffle_perm js cache
-  constructor
-  · intro x hx; rw [h1] at hx; exact hp.mem_iff.mp (hsub.subset hx)
-  · intro x hx; rw [h2] at hx
-    rcases List.mem_append.mp hx with h | h
-    · exact hp.mem_iff.mp (hsub.subset h)
-    · exact hp.mem_iff.mp (List.mem_of_mem_drop h)
-
-/-- "every connection attempt for a host goes to an address currently resolved for it": in
-any history of dials (any random choices) every dialled address is one of the addresses the
-cache entry started with, and so is every element left in the cached array. -/
-theorem dial_targets_subset_resolved (fam : α → Family) : ∀ (choices : List (List Nat)) (cache : List α),
-    (∀ t ∈ (dialMany fam choices cache).1, ∀ x ∈ t, x ∈ cache) ∧ (∀ x ∈ (dialMany fam choices cache).2, x ∈ cache) := by
+/-- "repeated or concurrent dialling never shrinks or alters the cached address set": a dial
+shuffles and compacts a COPY (fix da2a0f6), so after any history of dials, whatever the random
+choices, the cached list is the very list that was resolved — same elements, same order.
+(The in-place rewriting by `firstOfEachIPFamily`, `first_of_each_family_spec`, now hits the copy.) -/
+theorem cache_multiset_invariant (fam : α → Family) : ∀ (choices : List (List Nat)) (cache : List α),
+    (dialMany fam choices cache).2 = cache := by
   intro choices
   induction choices with
-  | nil => intro cache; simp [dialMany]
+  | nil => intro cache; rfl
   | cons js rest ih =>
     intro cache
-    obtain ⟨s1, s2⟩ := aux_dialStep_subset fam js cache
-    obtain ⟨i1, i2⟩ := ih (dialStep fam js cache).2
     unfold dialMany
     simp only
-    constructor
-    · intro t ht x hx
-      rcases List.mem_cons.mp ht with h | h
-      · subst h; exact s1 x hx
-      · exact s2 x (i1 t h x hx)
-    · intro x hx; exact s2 x (i2 x hx)
+    rw [(aux_dialStep fam js cache).2]
+    exact ih cache
 
-/-- "one per IP family": each dial goes to at most two addresses, valid ones, of different
-families, and to one of EVERY family that is (still) present in the cached array. -/
-theorem dial_one_per_family (fam : α → Family) (js : List Nat) (cache : List α) :
-    (dialStep fam js cache).1.length ≤ 2 ∧ (∀ z ∈ (dialStep fam js cache).1, fam z ≠ .invalid) ∧
-    ((dialStep fam js cache).1.map fam).Nodup ∧
-    (∀ x ∈ cache, fam x ≠ .invalid → ∃ z ∈ (dialStep fam js cache).1, fam z = fam x) := by
-  rw [(aux_dialStep fam js cache).1]
+/-- the former defect witness `[a4, b4, c6, d6]` (it became `[a4, c6, c6, d6]`): unchanged now -/
+example : dialStep fam4 [3, 2, 1] [0, 1, 2, 3] = ([0, 2], [0, 1, 2, 3]) := by decide
+
+/-- every dial of a history is a dial on the originally resolved list -/
+theorem aux_dialMany_targets (fam : α → Family) : ∀ (choices : List (List Nat)) (cache : List α),
+    ∀ t ∈ (dialMany fam choices cache).1, ∃ js, t = pick fam (shuffle js cache) := by
+  intro choices
+  induction choices with
+  | nil => intro cache t ht; simp [dialMany] at ht
+  | cons js rest ih =>
+    intro cache t ht
+    unfold dialMany at ht
+    simp only at ht
+    rw [(aux_dialStep fam js cache).2] at ht
+    rcases List.mem_cons.mp ht with h | h
+    · exact ⟨js, by rw [h, (aux_dialStep fam js cache).1]⟩
+    · exact ih cache t h
+
+/-- "every connection attempt for a host goes to an address currently resolved for it": in
+any history of dials (any random choices) every dialled address is one of the resolved ones. -/
+theorem dial_targets_subset_resolved (fam : α → Family) (choices : List (List Nat)) (cache : List α) :
+    ∀ t ∈ (dialMany fam choices cache).1, ∀ x ∈ t, x ∈ cache := by
+  intro t ht x hx
+  obtain ⟨js, hjs⟩ := aux_dialMany_targets fam choices cache t ht
+  rw [hjs] at hx
+  have hsub := (aux_pick_spec fam (shuffle js cache) false).2.1
+  exact (shuffle_perm js cache).mem_iff.mp (hsub.subset hx)
+
+theorem aux_pick_one_per_family (fam : α → Family) (js : List Nat) (cache : List α) :
+    (pick fam (shuffle js cache)).length ≤ 2 ∧ (∀ z ∈ pick fam (shuffle js cache), fam z ≠ .invalid) ∧
+    ((pick fam (shuffle js cache)).map fam).Nodup ∧
+    (∀ x ∈ cache, fam x ≠ .invalid → ∃ z ∈ pick fam (shuffle js cache), fam z = fam x) := by
   obtain ⟨h1, _, h3, h4, h5⟩ := aux_pick_spec fam (shuffle js cache) false
   refine ⟨h1, h3, h4, ?_⟩
   intro x hx hv
@@ -333,134 +343,24 @@ theorem dial_one_per_family (fam : α → Family) (js : List Nat) (cache : List 
     have hzf := List.find?_some this
     exact ⟨z, hz, by simpa using hzf⟩
 
-/-! #### the cached address multiset
+/-- "one per IP family": each dial goes to at most two addresses, valid ones, of different
+families, and to one of EVERY family among the resolved addresses. -/
+theorem dial_one_per_family (fam : α → Family) (js : List Nat) (cache : List α) :
+    (dialStep fam js cache).1.length ≤ 2 ∧ (∀ z ∈ (dialStep fam js cache).1, fam z ≠ .invalid) ∧
+    ((dialStep fam js cache).1.map fam).Nodup ∧
+    (∀ x ∈ cache, fam x ≠ .invalid → ∃ z ∈ (dialStep fam js cache).1, fam z = fam x) := by
+  rw [(aux_dialStep fam js cache).1]
+  exact aux_pick_one_per_family fam js cache
 
-Full statement of the clause ("repeated or concurrent dialling never shrinks or alters the
-cached address set"):
-
-    ∀ fam choices cache, (dialMany fam choices cache).2.Perm cache
-
-FALSE for the code as it stands (DESIGN §8 #12): the compaction `each = ips[:0]; append` of
-`firstOfEachIPFamily` overwrites the array it shares with the DNS cache. -/
-
-def fam4 (n : Nat) : Family := if n < 2 then .v4 else .v6
-
-/-- `[a4, b4, c6, d6]`, one dial whose shuffle leaves the order alone: dialled `a4, c6`, the
-cache now holds `[a4, c6, c6, d6]` — `b4` is gone for good. -/
-theorem cache_multiset_invariant_counterexample :
-    dialStep fam4 [3, 2, 1] [0, 1, 2, 3] = ([0, 2], [0, 2, 2, 3]) ∧
-    ¬ (dialStep fam4 [3, 2, 1] [0, 1, 2, 3]).2.Perm [0, 1, 2, 3] := by decide
-
-/-- after a second dial (shuffled to `c6, d6, c6, a4`) exactly one address per family is left,
-whatever is dialled afterwards (by `dial_targets_subset_resolved`) -/
-theorem cache_collapse_witness :
-    (dialMany fam4 [[3, 2, 1], [0, 1, 0]] [0, 1, 2, 3]).2 = [2, 0, 2, 0] ∧
-    ∀ choices, ∀ t ∈ (dialMany fam4 choices [2, 0, 2, 0]).1, ∀ x ∈ t, x = 0 ∨ x = 2 := by
-  refine ⟨by decide, ?_⟩
-  intro choices t ht x hx
-  have := (dial_targets_subset_resolved fam4 choices [2, 0, 2, 0]).1 t ht x hx
-  simp at this; omega
-
-/-- the cases in which dialling cannot alter the cached multiset: every address valid and
-either all of one family or at most two addresses -/
-def Harmless (fam : α → Family) (cache : List α) : Prop :=
-  (∀ x ∈ cache, fam x ≠ .invalid) ∧ ((∀ x ∈ cache, ∀ y ∈ cache, fam x = fam y) ∨ cache.length ≤ 2)
-
-theorem aux_pickGo_one_same (fam : α → Family) (b : Bool) : ∀ (l : List α),
-    (∀ x ∈ l, fam x = famOfBool b) → pickGo fam l 1 b = [] := by
-  intro l
-  induction l with
-  | nil => intro _; rfl
-  | cons x r ih =>
-    intro h
-    have hx := h x (by simp)
-    have hr := ih (fun y hy => h y (by simp [hy]))
-    unfold pickGo
-    rw [if_pos (by omega)]
-    cases b <;> simp [famOfBool] at hx <;> simp [hx, hr]
-
-theorem aux_pick_prefix (fam : α → Family) (l : List α) (h : Harmless fam l) : pick fam l <+: l := by
-  obtain ⟨hv, hc⟩ := h
-  cases l with
-  | nil => simp [pick, pickGo]
-  | cons x r =>
-    have hvx := hv x (by simp)
-    rcases hc with hsame | hlen
-    · -- one family: only the head is picked
-      have hr : ∀ y ∈ r, fam y = fam x := fun y hy => hsame y (by simp [hy]) x (by simp)
-      unfold pick pickGo
-      rw [if_pos (by omega)]
-      cases hf : fam x with
-      | invalid => exact absurd hf hvx
-      | v4 =>
-        simp only
-        rw [if_pos (by simp), aux_pickGo_one_same fam true r (by intro y hy; rw [hr y hy, hf]; rfl)]
-        exact ⟨r, rfl⟩
-      | v6 =>
-        simp only
-        rw [if_pos (by simp), aux_pickGo_one_same fam false r (by intro y hy; rw [hr y hy, hf]; rfl)]
-        exact ⟨r, rfl⟩
-    · -- at most two valid addresses
-      match r, hlen, hv with
-      | [], _, _ =>
-        unfold pick pickGo
-        rw [if_pos (by omega)]
-        cases hf : fam x with
-        | invalid => exact absurd hf hvx
-        | v4 => simp [pickGo]
-        | v6 => simp [pickGo]
-      | [y], _, hv =>
-        have hvy := hv y (by simp)
-        unfold pick pickGo
-        rw [if_pos (by omega)]
-        cases hf : fam x with
-        | invalid => exact absurd hf hvx
-        | v4 =>
-          cases hg : fam y with
-          | invalid => exact absurd hg hvy
-          | v4 => simp [pickGo, hg]
-          | v6 => simp [pickGo, hg]
-        | v6 =>
-          cases hg : fam y with
-          | invalid => exact absurd hg hvy
-          | v4 => simp [pickGo, hg]
-          | v6 => simp [pickGo, hg]
-      | _ :: _ :: _, hlen, _ => simp at hlen
-
-theorem aux_harmless_perm (fam : α → Family) (l l' : List α) (hp : l'.Perm l) (h : Harmless fam l) : Harmless fam l' := by
-  obtain ⟨hv, hc⟩ := h
-  refine ⟨fun x hx => hv x (hp.mem_iff.mp hx), ?_⟩
-  rcases hc with hs | hl
-  · exact Or.inl (fun x hx y hy => hs x (hp.mem_iff.mp hx) y (hp.mem_iff.mp hy))
-  · exact Or.inr (by rw [hp.length_eq]; exact hl)
-
-theorem aux_dialStep_harmless (fam : α → Family) (js : List Nat) (cache : List α) (h : Harmless fam cache) :
-    (dialStep fam js cache).2 = shuffle js cache := by
-  rw [(aux_dialStep fam js cache).2]
-  have hpre := aux_pick_prefix fam (shuffle js cache) (aux_harmless_perm fam cache _ (shuffle_perm js cache) h)
-  generalize pick fam (shuffle js cache) = p at *
-  obtain ⟨t, ht⟩ := hpre
-  rw [← ht, List.drop_left]
-
-/-- `cache_multiset_invariant`, proved for the address sets on which the compaction happens
-to write every element onto itself: all addresses valid (DNS answers always are) and either a
-single IP family (any number of addresses) or at most two addresses.  For mixed families with
-three or more addresses the statement is false (`cache_multiset_invariant_counterexample`). -/
-theorem cache_multiset_invariant_partial (fam : α → Family) : ∀ (choices : List (List Nat)) (cache : List α),
-    Harmless fam cache → (dialMany fam choices cache).2.Perm cache := by
-  intro choices
-  induction choices with
-  | nil => intro cache _; exact List.Perm.refl _
-  | cons js rest ih =>
-    intro cache h
-    unfold dialMany
-    simp only
-    have hs := aux_dialStep_harmless fam js cache h
-    have hp : (dialStep fam js cache).2.Perm cache := by rw [hs]; exact shuffle_perm js cache
-    exact (ih _ (aux_harmless_perm fam cache _ hp h)).trans hp
-
-example : Harmless fam4 [0, 1, 0, 1, 1] := ⟨by decide, Or.inl (by decide)⟩
-example : Harmless fam4 [1, 3] := ⟨by decide, Or.inr (by decide)⟩
+/-- …and this holds for EVERY dial of every history, with respect to the originally resolved
+set: no family (and, by `every_address_keeps_being_reachable`, no address) ever drops out. -/
+theorem dial_history_one_per_family (fam : α → Family) (choices : List (List Nat)) (cache : List α) :
+    ∀ t ∈ (dialMany fam choices cache).1,
+      t.length ≤ 2 ∧ (t.map fam).Nodup ∧ (∀ x ∈ cache, fam x ≠ .invalid → ∃ z ∈ t, fam z = fam x) := by
+  intro t ht
+  obtain ⟨js, hjs⟩ := aux_dialMany_targets fam choices cache t ht
+  obtain ⟨h1, _, h3, h4⟩ := aux_pick_one_per_family fam js cache
+  rw [hjs]; exact ⟨h1, h3, h4⟩
 
 /-! ### every address can be chosen -/
 
@@ -556,6 +456,14 @@ theorem every_address_reachable (fam : α → Family) (cache : List α) (x : α)
 example : ∃ js, 1 ∈ (dialStep fam4 js [0, 1, 2, 3]).1 := ⟨[3, 0, 1], by decide⟩
 example : ∃ js, 3 ∈ (dialStep fam4 js [0, 1, 2, 3]).1 := ⟨[0, 2, 1], by decide⟩
 
+/-- "so every resolved address keeps being used over time": after ANY history of dials every
+valid resolved address is still dialled for some outcome of the next shuffle. -/
+theorem every_address_keeps_being_reachable (fam : α → Family) (choices : List (List Nat)) (cache : List α) (x : α)
+    (hx : x ∈ cache) (hv : fam x ≠ .invalid) :
+    ∃ js, x ∈ (dialStep fam js (dialMany fam choices cache).2).1 := by
+  rw [cache_multiset_invariant]
+  exact every_address_reachable fam cache x hx hv
+
 /-! ### ConnectTo and the custom resolver: rotation -/
 
 /-- distance (minus one) from counter `n` to the next use of index `i` -/
@@ -602,11 +510,9 @@ theorem aux_rr_count (k i : Nat) (hi : i < k) : ∀ (m n : Nat), n < k →
         split at hhit <;> split <;> split <;> omega
       rw [g]; omega
 
-/-- "dials to a mapped address rotate evenly over its replacement addresses": `m` sequential
-dials (counter starting at 0, as `ConnectTo` creates it) over `k ≥ 1` replacements use
-index `j mod k` for the j-th dial (j = 1, 2, …; so the first pick is index 1, or 0 when
-k = 1), and every index is used ⌊m/k⌋ or ⌈m/k⌉ times. -/
-theorem connect_to_rotation (k m : Nat) (hk : 0 < k) :
+/-- the reference rotation: index `j mod k` for the j-th step (first index 1), every index
+used ⌊m/k⌋ or ⌈m/k⌉ times -/
+theorem aux_rotation (k m : Nat) (hk : 0 < k) :
     rrSeq k m 0 = (List.range m).map (fun j => (j + 1) % k) ∧
     (∀ i, i < k → m / k ≤ (rrSeq k m 0).count i ∧ (rrSeq k m 0).count i ≤ (m + k - 1) / k) ∧
     (∀ x ∈ rrSeq k m 0, x < k) := by
@@ -632,8 +538,7 @@ theorem connect_to_rotation (k m : Nat) (hk : 0 < k) :
     have hg : gap k 0 i ≤ k - 1 := by unfold gap; split <;> omega
     generalize (rrSeq k m 0).count i = c at *
     constructor
-    · -- m ≤ k*c + (k-1) < k*(c+1)
-      have : m < k * (c + 1) := by rw [Nat.mul_add, Nat.mul_one]; omega
+    · have : m < k * (c + 1) := by rw [Nat.mul_add, Nat.mul_one]; omega
       have := (Nat.div_lt_iff_lt_mul hk).mpr (by rw [Nat.mul_comm] at this; exact this)
       omega
     · apply (Nat.le_div_iff_mul_le hk).mpr
@@ -643,43 +548,8 @@ theorem connect_to_rotation (k m : Nat) (hk : 0 < k) :
     obtain ⟨j, _, hj⟩ := List.mem_map.mp hx
     rw [← hj]; exact Nat.mod_lt _ hk
 
-example : rrSeq 3 7 0 = [1, 2, 0, 1, 2, 0, 1] := by decide
-
-/-- the sequential step is what the code does in one dial; an empty replacement list is a
-division by zero -/
-theorem rr_next_spec (k n : Nat) : (k = 0 → rrNext k n = .panic) ∧ (0 < k → rrNext k n = .ok ((n + 1) % k, (n + 1) % k)) := by
-  unfold rrNext
-  constructor
-  · intro h; rw [if_pos h]
-  · intro h; rw [if_neg (by omega)]
-
-/-- "concurrent hits cause no data race in the dial path" is not provable of a model without
-memory; its logical face is: the three memory operations of `ConnectTo`'s rotation are not
-atomic, and two interleaved dials (reads first, then writes, then the second reads) pick the
-SAME replacement while the counter advanced only once. -/
-theorem rotation_lost_update_witness :
-    ∃ s, rrRun (RRState.init 3 2) [0, 1, 0, 1, 0, 1] = some s ∧
-      s.ws.map (·.picked) = [some 1, some 1] ∧ s.n = 1 := by
-  exact ⟨_, rfl, by decide, by decide⟩
-
-/-- …and even when the two increments do not collide, the second read of the counter lets
-both dials use the address the later increment selected -/
-theorem rotation_reread_witness :
-    ∃ s, rrRun (RRState.init 3 2) [0, 0, 1, 1, 0, 1] = some s ∧
-      s.ws.map (·.picked) = [some 2, some 2] ∧ s.n = 2 := by
-  exact ⟨_, rfl, by decide, by decide⟩
-
-/-- run without interleaving, a worker's three operations are exactly the sequential step -/
-theorem rr_atomic_is_sequential (k n : Nat) (hk : 0 < k) :
-    ∃ s, rrRun { n := n, k := k, ws := [{ pc := 0, tmp := 0, picked := none }] } [0, 0, 0] = some s ∧
-      s.n = (n + 1) % k ∧ s.ws.map (·.picked) = [some ((n + 1) % k)] ∧ rrNext k n = .ok (s.n, (n + 1) % k) := by
-  refine ⟨_, rfl, rfl, rfl, ?_⟩
-  exact (rr_next_spec k n).2 hk
-
-/-- "custom resolver rotation": `atomic.AddUint64(&idx, 1) % len` hands every call its own
-ticket, so (before the 64-bit counter wraps) the calls use the addresses in strict rotation:
-the same index sequence as the sequential ConnectTo rotation, hence the same even spread. -/
-theorem resolver_rotation (k : Nat) (_hk : 0 < k) : ∀ (m idx : Nat), idx + m < two64 →
+/-- a 64-bit ticket counter that does not wrap walks the reference rotation -/
+theorem aux_ticket_seq (k : Nat) : ∀ (m idx : Nat), idx + m < two64 →
     resolverSeq k m idx = rrSeq k m (idx % k) ∧
     resolverSeq k m idx = (List.range m).map (fun j => (idx + j + 1) % k) := by
   intro m
@@ -701,13 +571,241 @@ theorem resolver_rotation (k : Nat) (_hk : 0 < k) : ∀ (m idx : Nat), idx + m <
       simp only [Function.comp]
       congr 1; omega
 
+theorem aux_ctSeq_eq (k : Nat) : ∀ (m n : Nat), ctSeq k m n = resolverSeq k m n := by
+  intro m
+  induction m with
+  | zero => intro n; rfl
+  | succ m ih => intro n; unfold ctSeq resolverSeq; rw [ih]
+
+/-- "dials to a mapped address rotate evenly over its replacement addresses": `m` sequential
+dials (counter starting at 0, as `ConnectTo` creates it; fewer than 2^64 of them) over `k ≥ 1`
+replacements use index `j mod k` for the j-th dial (j = 1, 2, …; so the first pick is index 1,
+or 0 when k = 1), and every index is used ⌊m/k⌋ or ⌈m/k⌉ times. -/
+theorem connect_to_rotation (k m : Nat) (hk : 0 < k) (hm : m < two64) :
+    ctSeq k m 0 = (List.range m).map (fun j => (j + 1) % k) ∧
+    (∀ i, i < k → m / k ≤ (ctSeq k m 0).count i ∧ (ctSeq k m 0).count i ≤ (m + k - 1) / k) ∧
+    (∀ x ∈ ctSeq k m 0, x < k) := by
+  have h : ctSeq k m 0 = rrSeq k m 0 := by
+    rw [aux_ctSeq_eq, (aux_ticket_seq k m 0 (by omega)).1, Nat.zero_mod]
+  rw [h]; exact aux_rotation k m hk
+
+example : ctSeq 3 7 0 = [1, 2, 0, 1, 2, 0, 1] := by decide
+
+/-- one dial run alone: the counter advances by one (mod 2^64) and the NEW value selects the
+replacement; an empty replacement list is a division by zero -/
+theorem rr_next_spec (k n : Nat) :
+    (k = 0 → rrNext k n = .panic) ∧ (0 < k → rrNext k n = .ok ((n + 1) % two64, ((n + 1) % two64) % k)) := by
+  unfold rrNext
+  constructor
+  · intro h; rw [if_pos h]
+  · intro h; rw [if_neg (by omega)]
+
+/-! #### all interleavings of concurrently dialling workers -/
+
+/-- tickets handed out so far: those of completed dials and those of dials in flight -/
+def tickets (s : CTState) : List Nat :=
+  s.ws.flatMap (fun w => w.done ++ if w.pc = 0 then [] else [w.tmp])
+
+theorem aux_flatMap_set {β γ : Type} (f : β → List γ) : ∀ (ws : List β) (i : Nat) (w w' : β) (x : List γ),
+    ws[i]? = some w → f w' = f w ++ x → ((ws.set i w').flatMap f).Perm (ws.flatMap f ++ x) := by
+  intro ws
+  induction ws with
+  | nil => intro i w w' x h; simp at h
+  | cons a r ih =>
+    intro i w w' x h hf
+    cases i with
+    | zero =>
+      simp at h; subst h
+      simp only [List.set_cons_zero, List.flatMap_cons, hf, List.append_assoc]
+      exact List.Perm.append_left _ List.perm_append_comm
+    | succ i =>
+      simp only [List.set_cons_succ, List.flatMap_cons, List.append_assoc]
+      exact List.Perm.append_left _ (ih i w w' x (by simpa using h) hf)
+
+/-- one step of any worker keeps "the tickets handed out are exactly 1 … n" -/
+theorem aux_ctStep (s : CTState) (w : Nat) (hinv : (tickets s).Perm (List.range' 1 s.n)) (hn : s.n + 1 < two64) :
+    (tickets (ctStep s w)).Perm (List.range' 1 (ctStep s w).n) ∧ (ctStep s w).n ≤ s.n + 1 ∧
+    (ctStep s w).k = s.k ∧ (ctStep s w).ws.length = s.ws.length := by
+  unfold ctStep
+  cases hw : s.ws[w]? with
+  | none => exact ⟨hinv, Nat.le_succ _, rfl, rfl⟩
+  | some wk =>
+    simp only
+    by_cases hpc : wk.pc = 0
+    · rw [if_pos hpc]
+      have hmod : (s.n + 1) % two64 = s.n + 1 := Nat.mod_eq_of_lt hn
+      refine ⟨?_, by simp [hmod], rfl, by simp⟩
+      simp only [hmod]
+      have := aux_flatMap_set (fun w : CTWorker => w.done ++ if w.pc = 0 then [] else [w.tmp]) s.ws w wk
+        { wk with pc := 1, tmp := s.n + 1 } [s.n + 1] hw (by simp [hpc])
+      have key : (tickets { s with n := s.n + 1, ws := s.ws.set w { wk with pc := 1, tmp := s.n + 1 } }).Perm
+          (tickets s ++ [s.n + 1]) := this
+      refine key.trans ?_
+      rw [List.range'_1_concat, Nat.add_comm 1]
+      exact List.Perm.append_right _ hinv
+    · rw [if_neg hpc]
+      refine ⟨?_, Nat.le_succ _, rfl, by simp⟩
+      have := aux_flatMap_set (fun w : CTWorker => w.done ++ if w.pc = 0 then [] else [w.tmp]) s.ws w wk
+        { wk with pc := 0, done := wk.done ++ [wk.tmp] } [] hw (by simp [hpc])
+      simp only [List.append_nil] at this
+      have key : (tickets { s with ws := s.ws.set w { wk with pc := 0, done := wk.done ++ [wk.tmp] } }).Perm (tickets s) := this
+      exact key.trans hinv
+
+theorem aux_flatMap_congr {β γ : Type} (f g : β → List γ) : ∀ (ws : List β), (∀ w ∈ ws, f w = g w) →
+    ws.flatMap f = ws.flatMap g := by
+  intro ws
+  induction ws with
+  | nil => intro _; rfl
+  | cons a r ih =>
+    intro h
+    simp only [List.flatMap_cons]
+    rw [h a (by simp), ih (fun w hw => h w (by simp [hw]))]
+
+theorem aux_ctRun : ∀ (sched : List Nat) (s : CTState), (tickets s).Perm (List.range' 1 s.n) →
+    s.n + sched.length < two64 →
+    (tickets (ctRun s sched)).Perm (List.range' 1 (ctRun s sched).n) ∧ (ctRun s sched).k = s.k ∧
+    (ctRun s sched).ws.length = s.ws.length := by
+  intro sched
+  induction sched with
+  | nil => intro s h _; exact ⟨h, rfl, rfl⟩
+  | cons w rest ih =>
+    intro s h hlen
+    obtain ⟨h1, h2, h3, h4⟩ := aux_ctStep s w h (by simp at hlen; omega)
+    obtain ⟨i1, i2, i3⟩ := ih (ctStep s w) h1 (by simp at hlen; omega)
+    exact ⟨i1, by rw [← h3]; exact i2, by rw [← h4]; exact i3⟩
+
+/-- Under EVERY interleaving of any number of concurrently dialling workers, each dialling any
+number of times (schedules shorter than 2^64 steps), the atomic add hands every dial its own
+ticket: the tickets of completed and in-flight dials are exactly 1, …, n (no lost update, no
+ticket used twice). -/
+theorem connect_to_tickets_unique (k workers : Nat) (sched : List Nat) (hs : sched.length < two64) :
+    (tickets (ctRun (CTState.init k workers) sched)).Perm (List.range' 1 (ctRun (CTState.init k workers) sched).n) := by
+  have h0 : (tickets (CTState.init k workers)).Perm (List.range' 1 (CTState.init k workers).n) := by
+    unfold tickets CTState.init
+    simp
+  exact (aux_ctRun sched (CTState.init k workers) h0 (by simpa [CTState.init] using hs)).1
+
+/-- "dials to a mapped address rotate evenly … for all interleavings of 1..64 concurrent
+dialling workers": whenever no dial is in flight, after `n` completed dials by any number of
+workers under any interleaving, every one of the `k` replacements was used ⌊n/k⌋ or ⌈n/k⌉
+times (and `n` is the counter value). -/
+theorem connect_to_rotation_concurrent (k workers : Nat) (hk : 0 < k) (sched : List Nat) (hs : sched.length < two64)
+    (hq : ∀ w ∈ (ctRun (CTState.init k workers) sched).ws, w.pc = 0) :
+    (ctRun (CTState.init k workers) sched).indices.length = (ctRun (CTState.init k workers) sched).n ∧
+    ∀ i, i < k →
+      (ctRun (CTState.init k workers) sched).indices.length / k ≤ (ctRun (CTState.init k workers) sched).indices.count i ∧
+      (ctRun (CTState.init k workers) sched).indices.count i ≤
+        ((ctRun (CTState.init k workers) sched).indices.length + k - 1) / k := by
+  have hinv := connect_to_tickets_unique k workers sched hs
+  have hk' : (ctRun (CTState.init k workers) sched).k = k :=
+    (aux_ctRun sched (CTState.init k workers) (by unfold tickets CTState.init; simp)
+      (by simpa [CTState.init] using hs)).2.1
+  generalize ctRun (CTState.init k workers) sched = s at *
+  -- nothing in flight: the tickets are those of the completed dials
+  have hdone : tickets s = s.ws.flatMap (·.done) := by
+    unfold tickets
+    apply aux_flatMap_congr
+    intro w hw
+    rw [if_pos (hq w hw)]; simp
+  rw [hdone] at hinv
+  have hperm : s.indices.Perm (rrSeq k s.n 0) := by
+    unfold CTState.indices
+    rw [hk', (aux_rotation k s.n hk).1]
+    have : (List.range s.n).map (fun j => (j + 1) % k) = (List.range' 1 s.n).map (· % k) := by
+      rw [List.range'_eq_map_range, List.map_map]
+      apply List.map_congr_left
+      intro j _
+      simp [Nat.add_comm]
+    rw [this]
+    exact hinv.map _
+  have hlen : s.indices.length = s.n := by
+    rw [hperm.length_eq, (aux_rotation k s.n hk).1]; simp
+  refine ⟨hlen, ?_⟩
+  intro i hi
+  rw [hperm.count_eq, hlen]
+  exact (aux_rotation k s.n hk).2.1 i hi
+
+/-- two workers, their steps interleaved in every which way: distinct tickets, even spread -/
+example : (ctRun (CTState.init 3 2) [0, 1, 0, 1]).indices = [1, 2] := by decide
+example : (ctRun (CTState.init 3 2) [0, 1, 1, 0, 1, 1, 0, 0]).ws.map (·.done) = [[1, 4], [2, 3]] := by decide
+example : ∀ w ∈ (ctRun (CTState.init 3 2) [0, 1, 1, 0, 1, 1, 0, 0]).ws, w.pc = 0 := by decide
+
+/-- a single worker's two steps are the sequential dial -/
+theorem ct_single_worker_is_sequential (k n : Nat) (hk : 0 < k) :
+    (ctRun { n := n, k := k, ws := [{ pc := 0, tmp := 0, done := [] }] } [0, 0]).n = (n + 1) % two64 ∧
+    (ctRun { n := n, k := k, ws := [{ pc := 0, tmp := 0, done := [] }] } [0, 0]).indices = [((n + 1) % two64) % k] ∧
+    rrNext k n = .ok ((n + 1) % two64, ((n + 1) % two64) % k) :=
+  ⟨rfl, rfl, (rr_next_spec k n).2 hk⟩
+
+/-! #### the former, non-atomic shape (before fix 42475d9), kept as a witness of what the
+atomic add rules out: `cm.n = (cm.n + 1) % len(cm.addrs); addr = cm.addrs[cm.n]` as three
+separate memory operations — pc 0 `t := cm.n`; pc 1 `cm.n = (t + 1) % k`; pc 2
+`addr = cm.addrs[cm.n]` (reads `cm.n` again). -/
+namespace Old
+
+structure RRWorker where
+  pc : Nat
+  tmp : Nat
+  picked : Option Nat
+  deriving Repr, DecidableEq
+
+structure RRState where
+  n : Nat
+  k : Nat
+  ws : List RRWorker
+  deriving Repr, DecidableEq
+
+def RRState.init (k workers : Nat) : RRState :=
+  { n := 0, k := k, ws := List.replicate workers { pc := 0, tmp := 0, picked := none } }
+
+def rrStep (s : RRState) (w : Nat) : Option RRState :=
+  match s.ws[w]? with
+  | none => none
+  | some wk =>
+    match wk.pc with
+    | 0 => some { s with ws := s.ws.set w { wk with pc := 1, tmp := s.n } }
+    | 1 => some { s with n := (wk.tmp + 1) % s.k, ws := s.ws.set w { wk with pc := 2 } }
+    | 2 => some { s with ws := s.ws.set w { wk with pc := 3, picked := some s.n } }
+    | _ => none
+
+def rrRun : RRState → List Nat → Option RRState
+  | s, [] => some s
+  | s, w :: ws => match rrStep s w with
+    | some s' => rrRun s' ws
+    | none => none
+
+end Old
+
+/-- OLD shape only: two interleaved non-atomic dials (reads first, then writes, then the second
+reads) pick the SAME replacement while the counter advanced only once — impossible now by
+`connect_to_tickets_unique`. -/
+theorem rotation_lost_update_old_witness :
+    ∃ s, Old.rrRun (Old.RRState.init 3 2) [0, 1, 0, 1, 0, 1] = some s ∧
+      s.ws.map (·.picked) = [some 1, some 1] ∧ s.n = 1 := by
+  exact ⟨_, rfl, by decide, by decide⟩
+
+/-- OLD shape only: even when the two increments did not collide, the second read of the counter
+let both dials use the address the later increment selected -/
+theorem rotation_reread_old_witness :
+    ∃ s, Old.rrRun (Old.RRState.init 3 2) [0, 0, 1, 1, 0, 1] = some s ∧
+      s.ws.map (·.picked) = [some 2, some 2] ∧ s.n = 2 := by
+  exact ⟨_, rfl, by decide, by decide⟩
+
+/-- "custom resolver rotation": `atomic.AddUint64(&idx, 1) % len` hands every call its own
+ticket, so (before the 64-bit counter wraps) the calls use the addresses in strict rotation:
+the same index sequence as the ConnectTo rotation, hence the same even spread. -/
+theorem resolver_rotation (k : Nat) (_hk : 0 < k) (m idx : Nat) (h : idx + m < two64) :
+    resolverSeq k m idx = rrSeq k m (idx % k) ∧
+    resolverSeq k m idx = (List.range m).map (fun j => (idx + j + 1) % k) :=
+  aux_ticket_seq k m idx h
+
 example : resolverSeq 3 7 0 = [1, 2, 0, 1, 2, 0, 1] := by decide
 example : resolverSeq 3 2 (two64 - 1) = [0, 1] := by decide   -- the counter wraps: outside the hypothesis
 
 theorem resolver_rotation_even (k m : Nat) (hk : 0 < k) (hm : m < two64) (i : Nat) (hi : i < k) :
     m / k ≤ (resolverSeq k m 0).count i ∧ (resolverSeq k m 0).count i ≤ (m + k - 1) / k := by
   rw [(resolver_rotation k hk m 0 (by omega)).1, Nat.zero_mod]
-  exact (connect_to_rotation k m hk).2.1 i hi
+  exact (aux_rotation k m hk).2.1 i hi
 
 /-! ### composition: unmapped addresses pass through, mapped ones rotate -/
 
@@ -723,9 +821,9 @@ theorem connect_to_unmapped_passthrough (w : World) (m : List (HP × (List HP ×
 of that key advances -/
 theorem connect_to_mapped (w : World) (m : List (HP × (List HP × Nat))) (ch : List (List Nat)) (a a' : HP)
     (addrs : List HP) (n : Nat) (h : m.find? (·.1 = a) = some (a, (addrs, n)))
-    (hk : 0 < addrs.length) (ha : addrs[(n + 1) % addrs.length]? = some a') :
+    (hk : 0 < addrs.length) (ha : addrs[((n + 1) % two64) % addrs.length]? = some a') :
     dialVia w [.connectTo m] ch a =
-      .ok ([a'], [.connectTo (m.map (fun e => if e.1 = a then (e.1, (addrs, (n + 1) % addrs.length)) else e))], ch) := by
+      .ok ([a'], [.connectTo (m.map (fun e => if e.1 = a then (e.1, (addrs, (n + 1) % two64)) else e))], ch) := by
   unfold dialVia
   simp [dialViaF, h, (rr_next_spec addrs.length n).2 hk, ha]
 
@@ -742,31 +840,41 @@ example :
 
 /-! ### facts regenerated from the source (go/ast): what the correspondence cannot observe
 
-The model treats the ConnectTo rotation as an unsynchronised read-modify-write followed by a
-second read, the shuffle and the compaction as writes to the very slice the cache handed out,
-and the custom resolver's rotation as one atomic step.  These obligations compare that with
-the current source text; they break (and force the model to be revisited) when the code
-changes, e.g. when a lock, an atomic operation or a copy is added. -/
+The model treats the ConnectTo rotation as ONE atomic step on the shared counter followed by
+a local computation, the shuffle as one critical section, the shuffle and the compaction as
+writes to a private copy of the slice the cache handed out, and the custom resolver's
+rotation as one atomic step.  These obligations compare that with the current source text;
+reverting any of the fixes da2a0f6 (copy) or 42475d9 (mutex, atomic add) breaks one of them. -/
 
-/-- the two statements executed for a mapped address, with no lock and no atomic operation
-anywhere in the dial closure of `ConnectTo` -/
-theorem facts_connect_to_unsynchronised_rmw :
-    Vegeta.Extracted.c18ConnectToFound = true ∧ Vegeta.Extracted.c18ConnectToSyncCalls = 0 ∧
+/-- the two statements executed for a mapped address: the counter is advanced by
+`atomic.AddUint64` and the returned value (a local) selects the replacement; the counter field
+is mentioned nowhere else in the dial closure -/
+theorem facts_connect_to_atomic_add :
+    Vegeta.Extracted.c18ConnectToFound = true ∧ Vegeta.Extracted.c18ConnectToSyncCalls = 1 ∧
+    Vegeta.Extracted.c18ConnectToCounterMentions = 1 ∧
     Vegeta.Extracted.c18ConnectToMappedStmts =
-      [ [99, 109, 46, 110, 32, 61, 32, 40, 99, 109, 46, 110, 32, 43, 32, 49, 41, 32, 37, 32, 108, 101, 110, 40, 99, 109, 46, 97, 100, 100, 114, 115, 41],   -- cm.n = (cm.n + 1) % len(cm.addrs)
-        [97, 100, 100, 114, 32, 61, 32, 99, 109, 46, 97, 100, 100, 114, 115, 91, 99, 109, 46, 110, 93] ]                -- addr = cm.addrs[cm.n]
+      [ [110, 32, 58, 61, 32, 97, 116, 111, 109, 105, 99, 46, 65, 100, 100, 85, 105, 110, 116, 54, 52, 40, 38, 99, 109, 46, 110, 44, 32, 49, 41],   -- n := atomic.AddUint64(&cm.n, 1)
+        [97, 100, 100, 114, 32, 61, 32, 99, 109, 46, 97, 100, 100, 114, 115, 91, 110, 37, 117, 105, 110, 116, 54, 52, 40, 108, 101, 110, 40, 99, 109, 46, 97, 100, 100, 114, 115, 41, 41, 93] ]   -- addr = cm.addrs[n%uint64(len(cm.addrs))]
     := by decide
 
-/-- the slice returned by `resolver.LookupHost` is shuffled (swap on the same variable) and
-handed to `firstOfEachIPFamily` without being reassigned/copied in between, inside a closure
-with no lock and no atomic operation; `firstOfEachIPFamily` builds its result in `ips[:0]` -/
-theorem facts_dns_shuffle_and_compaction_in_place :
+/-- between `resolver.LookupHost` and `rng.Shuffle` the slice variable is reassigned exactly
+once, to a fresh copy; the shuffle (the only mention of `rng` in the dial closure) stands
+directly between `rngmu.Lock()` and `rngmu.Unlock()`, `rngmu` being a `sync.Mutex` of the
+option; these are the only lock operations; the shuffled copy goes to `firstOfEachIPFamily`,
+which builds its result in `ips[:0]` of that copy -/
+theorem facts_dns_copy_before_shuffle_under_mutex :
     Vegeta.Extracted.c18DnsLookupVar = [105, 112, 115] ∧                                   -- ips
+    Vegeta.Extracted.c18DnsAssignsBeforeShuffle = 1 ∧
+    Vegeta.Extracted.c18DnsAssignTextsBeforeShuffle =
+      [ [105, 112, 115, 32, 61, 32, 97, 112, 112, 101, 110, 100, 40, 91, 93, 115, 116, 114, 105, 110, 103, 40, 110, 105, 108, 41, 44, 32, 105, 112, 115, 46, 46, 46, 41] ] ∧                               -- ips = append([]string(nil), ips...)
+    Vegeta.Extracted.c18DnsShuffleNeighbours =
+      [ [114, 110, 103, 109, 117, 46, 76, 111, 99, 107, 40, 41], [114, 110, 103, 109, 117, 46, 85, 110, 108, 111, 99, 107, 40, 41] ] ∧                               -- rngmu.Lock() / rngmu.Unlock()
+    Vegeta.Extracted.c18DnsMutexDecl = [114, 110, 103, 109, 117, 32, 115, 121, 110, 99, 46, 77, 117, 116, 101, 120] ∧                      -- rngmu sync.Mutex
+    Vegeta.Extracted.c18DnsRngMentions = 1 ∧
+    Vegeta.Extracted.c18DnsSyncCalls = 2 ∧
     Vegeta.Extracted.c18DnsShuffleLen = [108, 101, 110, 40, 105, 112, 115, 41] ∧                             -- len(ips)
     Vegeta.Extracted.c18DnsShuffleSwap = [105, 112, 115, 91, 105, 93, 44, 32, 105, 112, 115, 91, 106, 93, 32, 61, 32, 105, 112, 115, 91, 106, 93, 44, 32, 105, 112, 115, 91, 105, 93] ∧     -- ips[i], ips[j] = ips[j], ips[i]
-    Vegeta.Extracted.c18DnsAssignsBeforeShuffle = 0 ∧
     Vegeta.Extracted.c18DnsFoeAssign = [105, 112, 115, 32, 61, 32, 102, 105, 114, 115, 116, 79, 102, 69, 97, 99, 104, 73, 80, 70, 97, 109, 105, 108, 121, 40, 105, 112, 115, 41] ∧        -- ips = firstOfEachIPFamily(ips)
-    Vegeta.Extracted.c18DnsSyncCalls = 0 ∧
     Vegeta.Extracted.c18FoeEachInit = [101, 97, 99, 104, 32, 61, 32, 105, 112, 115, 91, 58, 48, 93] ∧                         -- each = ips[:0]
     Vegeta.Extracted.c18FoeEachAppend = [101, 97, 99, 104, 32, 61, 32, 97, 112, 112, 101, 110, 100, 40, 101, 97, 99, 104, 44, 32, 105, 112, 115, 91, 105, 93, 41]            -- each = append(each, ips[i])
     := by decide
